@@ -30,6 +30,8 @@ pub fn fixture(name: &str) -> (&'static str, &'static str) {
         "expired-wrongname" => pem!("expired-wrongname"),
         "unknown" => pem!("unknown"),
         "unknown-wrongname" => pem!("unknown-wrongname"),
+        "notyet" => pem!("notyet"),
+        "notyet-wrongname" => pem!("notyet-wrongname"),
         "selfsigned" => pem!("selfsigned"),
         "selfsigned-wrongname" => pem!("selfsigned-wrongname"),
         _ => panic!("unknown certificate fixture {}", name),
@@ -47,13 +49,22 @@ pub fn server_config(name: &str) -> Arc<ServerConfig> {
     }
     // "<fixture>+foreignkey": somebody who has a copy of the certificate but not its private key - the
     // handshake is signed with another key (the self-signed fixture's)
-    let (cert_name, foreign) = match name.strip_suffix("+foreignkey") {
+    // "<fixture>+garbagecert": the Certificate message carries octets that are no X.509 certificate at all
+    let (name_wo, garbage) = match name.strip_suffix("+garbagecert") {
         Some(n) => (n, true),
         None => (name, false),
     };
+    let (cert_name, foreign) = match name_wo.strip_suffix("+foreignkey") {
+        Some(n) => (n, true),
+        None => (name_wo, garbage),
+    };
     let (cert, key) = fixture(cert_name);
-    let certs: Vec<CertificateDer<'static>> = rustls_pemfile::certs(&mut cert.as_bytes()).collect::<Result<_, _>>().expect("fixture cert");
-    let key_pem = if foreign { fixture("selfsigned").1 } else { key };
+    let certs: Vec<CertificateDer<'static>> = if garbage {
+        vec![CertificateDer::from(b"\x30\x82\x00\x10this is not a certificate".to_vec())]
+    } else {
+        rustls_pemfile::certs(&mut cert.as_bytes()).collect::<Result<_, _>>().expect("fixture cert")
+    };
+    let key_pem = if foreign && !garbage { fixture("selfsigned").1 } else { key };
     let key: PrivateKeyDer<'static> = rustls_pemfile::private_key(&mut key_pem.as_bytes()).expect("fixture key").expect("fixture key present");
     let provider = Arc::new(rustls::crypto::aws_lc_rs::default_provider());
     let builder = ServerConfig::builder_with_provider(provider.clone()).with_safe_default_protocol_versions().expect("protocol versions").with_no_client_auth();
